@@ -141,6 +141,11 @@ func genScript(t *rapid.T, label string) map[int]backends.Fault {
 	for i := 0; i < n; i++ {
 		at := rapid.IntRange(0, 12).Draw(t, fmt.Sprintf("%s/at%d", label, i))
 		out[at] = backends.Fault{Code: rapid.SampledFrom(faultCodes).Draw(t, fmt.Sprintf("%s/code%d", label, i)), MidStreamAfter: -1}
+		// Bursts: the call that follows a failing one (a repetition of
+		// it, for instance) fails as well, in 1 of 4 cases.
+		for j := 1; j <= rapid.SampledFrom([]int{0, 0, 0, 0, 0, 0, 1, 2}).Draw(t, fmt.Sprintf("%s/burst%d", label, i)); j++ {
+			out[at+j] = backends.Fault{Code: rapid.SampledFrom(faultCodes).Draw(t, fmt.Sprintf("%s/code%d+%d", label, i, j)), MidStreamAfter: -1}
+		}
 	}
 	return out
 }
